@@ -13,7 +13,7 @@ Core Lean only.
 namespace MCHap.HapCalling
 open MCHap MCHap.Trace
 
-abbrev Hap := List Nat
+/- `Hap = List Nat` is the one of `Model/Likelihood` -/
 abbrev Post := List (List Hap × Rat)
 
 /-- posterior probability that `h` occurs (at any copy number) -/
